@@ -5,8 +5,8 @@ import SecsModel.Gen.CtrlMethods
 # Model.Gem.Ctrl — the GEM control state of a `GemEquipmentHandler`
 
 Built on the engine model (`Model.SM`) with
-* the generated control machine `Gen.CtrlSM` (states, transitions, `enter` wiring) and the generated forwarders
-  `Gen.CtrlSM.forwarders` (`_on_control_state_control/offline/online`),
+* the generated control machine `Gen.CtrlSM` (states, transitions) and the generated bodies of the callbacks its constructor
+  registers on state events (`Gen.CtrlMethods.handlers`, keyed by state and event — the forwarders out of CONTROL/OFFLINE/ONLINE),
 * hand-modelled from `gem/state_models_capability.py`: `_on_control_state_attempt_online` (the S1F1 probe; its outcome is an
   input), the `called` registrations that trigger the LOCAL/REMOTE collection events, `control_switch_*`, `_on_s01f15`,
   `_on_s01f17`; from `gem/equipmenthandler.py`: `on_connection_closed`;
@@ -64,13 +64,12 @@ def attr (c : CState) (a : String) : String :=
   else if a == "_online_control_state" then (if c.remote then "REMOTE" else "LOCAL")
   else ""
 
-/-- the `if/elif/else` chain of a generated forwarder: first row whose value matches (or `*` = `else`) -/
-def forward (c : CState) (handler : String) : List String :=
-  match CtrlSM.forwarders.find? (fun r => r.1 == handler) with
+/-- the `if/elif/else` chain of a registered handler body (`Gen.CtrlMethods.handlers`): the first row whose value matches
+(`*` = `else` / unconditional) decides; `""` = that branch requests nothing -/
+def forward (c : CState) (rows : List (String × String × String)) : List String :=
+  match rows.find? (fun row => row.2.1 == "*" || row.2.1 == attr c row.1) with
   | none => []
-  | some r => match r.2.find? (fun row => row.2.1 == "*" || row.2.1 == attr c row.1) with
-    | none => []
-    | some row => [row.2.2]
+  | some row => if row.2.2 == "" then [] else [row.2.2]
 
 /-- `_on_control_state_attempt_online`; `none` = the probe is still outstanding (the handler has not returned) -/
 def probeRequest : Option Probe → List String
@@ -78,16 +77,18 @@ def probeRequest : Option Probe → List String
   | some .hostAnswers => ["attempt_online_success"]
   | some _ => ["attempt_online_fail_host_offline"]
 
-/-- callbacks of the control machine: the generated `enter`/`leave` wiring, then the capability's ATTEMPT_ONLINE handler -/
+/-- the callbacks `ControlStateMachine.__init__` registered on `state.event`, in registration order, each as its generated body
+(the registered methods' names play no role) -/
+def registered (c : CState) (state event : String) : List Callback :=
+  (Gen.CtrlMethods.handlers.filter (fun h => h.1 == state && h.2.1 == event)).map fun h => ((fun _ => forward c h.2.2.2) : Callback)
+
+/-- callbacks of the control machine: the constructor's own (generated bodies), then the capability's ATTEMPT_ONLINE handler -/
 def handlers (c : CState) (p : Option Probe) : Handlers := fun ev =>
   match ev with
   | .enter s =>
     let nm := stateName CtrlSM s
-    (CtrlSM.wiring.filter (fun w => w.1 == nm && w.2.1 == "enter")).map (fun w => ((fun _ => forward c w.2.2) : Callback))
-      ++ (if nm == "ATTEMPT_ONLINE" then [((fun _ => probeRequest p) : Callback)] else [])
-  | .leave s =>
-    let nm := stateName CtrlSM s
-    (CtrlSM.wiring.filter (fun w => w.1 == nm && w.2.1 == "leave")).map (fun w => ((fun _ => forward c w.2.2) : Callback))
+    registered c nm "enter" ++ (if nm == "ATTEMPT_ONLINE" then [((fun _ => probeRequest p) : Callback)] else [])
+  | .leave s => registered c (stateName CtrlSM s) "leave"
   | .called _ => []
 
 /-- the `called` registrations of `StateModelsCapability.__init__` -/
